@@ -629,7 +629,7 @@ pub fn lane_env(seed: u64) -> Vec<Scenario> {
     for (oname, plans, faults) in outcome_plans() {
         for dirmode in ["tmp", "work", "keep"] {
             for fmt in ["md", "cram", "md-compat"] {
-                for layout in ["one", "two-same-name", "three-same-name", "prepend", "doc-timeout"] {
+                for layout in ["one", "two-same-name", "three-same-name", "blank-vs-underscore", "prepend", "doc-timeout"] {
                     let script = fmt != "md";
                     if script && plans.iter().any(|p| p.cfg != TestCfg::default() || p.fate == Fate::Detached) {
                         continue;
@@ -650,6 +650,12 @@ pub fn lane_env(seed: u64) -> Vec<Scenario> {
                         "two-same-name" => {
                             docs.push(mk_doc(&mut g, &mut sim, &format!("x/case.{}", ext), &plans));
                             docs.push(mk_doc(&mut g, &mut sim, &format!("y/case.{}", ext), &[Plan::new(Fate::Pass), Plan::new(Fate::Pass)]));
+                        }
+                        "blank-vs-underscore" => {
+                            // file names that become equal once whitespace is replaced
+                            docs.push(mk_doc(&mut g, &mut sim, &format!("x/my_case.{}", ext), &[Plan::new(Fate::Pass), Plan::new(Fate::Pass)]));
+                            docs.push(mk_doc(&mut g, &mut sim, &format!("y/my case.{}", ext), &plans));
+                            docs.push(mk_doc(&mut g, &mut sim, &format!("z/my-case.{}", ext), &[Plan::new(Fate::Pass)]));
                         }
                         "three-same-name" => {
                             docs.push(mk_doc(&mut g, &mut sim, &format!("x/case.{}", ext), &[Plan::new(Fate::Pass)]));
